@@ -340,7 +340,10 @@ class Unit:
     """one function under contract: unbounded proof, bounded model query for what is not proved, native replay of models."""
 
     def __init__(self, label, cls, functions, entry, post, bentry=None, scenario=None, native=None, known=None,
-                 expect_paths=1, timeout_ms=None, rentry=None, rknown=None):
+                 expect_paths=1, timeout_ms=None, rentry=None, rknown=None, confirm=None):
+        # confirm: {obligation: (scenario builder, native predicate)} -- a designed witness scenario that confirms a solver `sat`
+        # of that obligation on the real code (used where the solver model itself is not realisable, e.g. values of np.std)
+        self.confirm = confirm or {}
         # rknown: {obligation: finding text} for findings whose witness class is "the wrapped experimenter marks a trial infeasible";
         # rentry: the same entry under the assumption that it never does -- the residual obligations are proved on that run
         self.rentry, self.rknown = rentry, rknown or {}
@@ -520,6 +523,17 @@ def run_unit(chk, unit):
     if not hints_ok or open_posts or bad:
         refuted = refute(unit, set(posts) if not bad else None)
     violated = False
+    for n in posts:
+        if st[n] == 'sat' and n in unit.confirm and not (refuted.get(n) and refuted[n][2]):
+            sc = unit.confirm[n][0]()
+            obs = run_replay(sc)
+            try:
+                rep = (not unit.confirm[n][1](sc, obs)) if 'driver_error' not in obs else None
+            except Exception as e:
+                obs, rep = dict(obs, native_check_error=repr(e)), None
+            i0 = [i for i in by[n] if i['verdict'] == 'sat'][0]
+            refuted[n] = ('solver sat on the symbolic run (%s); confirmed with a designed witness scenario\n%s' % (i0['describe'], i0.get('model', '')),
+                          {'scenario': sc, 'observed': obs, 'replay_cmd': '/venv/bin/python %s <scenario.json>' % REPLAY}, rep)
     for n in posts:
         insts = by[n]
         tsum = sum(i['dt'] for i in insts)
@@ -1014,6 +1028,8 @@ def save_transform_invariant(transform):
     """`for trial in batch: saved.append(trial.parameters); trial.parameters = transform(trial.parameters)`."""
     def inv(it, fr, ctx):
         run = it.run
+        if not is_batch(ctx.iter):
+            raise Unsupported('save/transform loop must run over the batch itself')
         xs = loop_batch(ctx)
         cur, ent = G(run), entry_heap(ctx)
         name, old = find_local(fr, lambda v: (isinstance(v, list) and not v) or (isinstance(v, X.VList) and v.kind in (None, X.K_PD)),
@@ -1198,7 +1214,10 @@ def tf_scenario(kind):
             sc['wrappers'] = [{'module': 'permuting_experimenter', 'class': 'PermutingExperimenter',
                                'kwargs': {'parameters_to_permute': names[:1], 'seed': 3}}]
         elif kind == 'Discretizing':
-            feas = sorted(set(vals) | {0.9})
+            feas = [repr(v) for v in sorted(set(vals) | {0.9})]          # categorical feasible values (strings convertible to float)
+            for t in sc['batch']:
+                if names:
+                    t['params'][names[0]] = repr(t['params'][names[0]])
             sc['wrappers'] = [{'module': 'discretizing_experimenter', 'class': 'DiscretizingExperimenter',
                                'kwargs': {'discretization': {names[0]: feas} if names else {},
                                           'allow_oov': z3.is_true(model.eval(z3.Bool('allow_oov'), model_completion=True))}}]
@@ -1806,6 +1825,14 @@ def nz_scenario(p, model):
     return sc
 
 
+def nz_witness_scenario():
+    """constant answers during construction (empirical std 0), two different values above the constant afterwards"""
+    return {'kind': 'evaluate', 'base': {'params': [{'name': 'x'}], 'metrics': [{'name': 'obj', 'goal': 'MINIMIZE'}], 'default_value': 1.5},
+            'wrappers': [{'module': 'normalizing_experimenter', 'class': 'NormalizingExperimenter', 'kwargs': {'num_normalization_samples': 4}}],
+            'batch': [{'params': {'x': 0.2}}, {'params': {'x': 0.7}}],
+            'script': [[{'metrics': {'obj': {'value': 2.0 + i}}, 'infeasible': False, 'has_fm': True} for i in range(2)]]}
+
+
 def n_order_preserved(sc, obs):
     import math
     if obs.get('exception') is not None:
@@ -1837,7 +1864,7 @@ def units_normalizing():
     _, std_rhs = nz_table_roles()
     for k in range(len(std_rhs)):
         out.append(Unit('NormalizingExperimenter.__init__(std table store #%d)' % (k + 1), 'Normalizing', fns[:1], nz_std_entry(k), nz_std_post,
-                        bentry=nz_entry(BOUNDED), scenario=nz_scenario, native={'C20.Normalizing.__init__.std_positive': n_order_preserved}))
+                        confirm={'C20.Normalizing.__init__.std_positive': (nz_witness_scenario, n_order_preserved)}))
     return out
 
 
@@ -2134,9 +2161,111 @@ def units_problem_statement():
     return out
 
 
+# =========================================================================================== PermutingExperimenter.__init__: bijection
+def pb_entry(it):
+    """the real __init__ with two generic permuted parameter names (each iteration of the loop over names writes only its own key;
+    two names cover the interaction of two iterations, equal or different names)"""
+    run = it.run
+    st = Setup(it)
+    names = [z3.Const('permuted_name_%d' % k, Str) for k in range(2)]
+    cfgs = {}
+
+    def space_model(it_, name):
+        # SearchSpace.get(name) returns the config of that name (assumed); one config object per distinct name
+        for k, (nm, cfg) in enumerate(cfgs.values()):
+            if it_.truth(nm == name):
+                return cfg
+        k = len(cfgs)
+        cfg = X.make_param_config(it_.run, pm._lift(name, Str), k)
+        cfgs[k] = (pm._lift(name, Str), cfg)
+        return cfg
+    run.space_model = space_model
+    run.cfgs = cfgs
+    run.w = M.construct(it, cls_of(PE, 'PermutingExperimenter'), [st.base, list(names)], {'seed': z3.Int('seed')})
+    run.names = names
+    return None
+
+
+def pb_post(p):
+    R = 'C20.Permuting.__init__.'
+    run = p.run
+    if p.kind != 'return':
+        return []
+    tabs = [v for v in run.w.attrs.values() if isinstance(v, M.PyDict)]
+    if len(tabs) != 1:
+        return [(R + 'bijection', z3.BoolVal(False))]
+    out = []
+    rows = tabs[0].items()
+    clauses, types = [], []
+    for key, rm in rows:
+        cfg = [c for nm, c in run.cfgs.values() if c.name.eq(key)]
+        if not isinstance(rm, X.RawMap) or len(cfg) != 1:
+            return [(R + 'bijection', z3.BoolVal(False))]
+        F = cfg[0].fv
+        j, k, v = z3.Int('j!pb'), z3.Int('k!pb'), z3.Const('v!pb', X.PVal)
+        perm = [q for q in getattr(run, 'permutations', []) if q.source is F]
+        inr = lambda x: z3.And(x >= 0, x < F.n)
+        clauses += [
+            z3.ForAll([v], rm.dom[v] == z3.And(inr(F.fidx[v]), F.arr[F.fidx[v]] == v)),                      # defined exactly on the feasible values
+            z3.ForAll([j], z3.Implies(inr(j), z3.And(inr(F.fidx[rm.val[F.arr[j]]]), F.arr[F.fidx[rm.val[F.arr[j]]]] == rm.val[F.arr[j]]))),   # maps into them
+            z3.ForAll([j, k], z3.Implies(z3.And(inr(j), inr(k), rm.val[F.arr[j]] == rm.val[F.arr[k]]), j == k)),   # injective
+        ]
+        if len(perm) >= 1:
+            tau = perm[-1].tau
+            clauses.append(z3.ForAll([j], z3.Implies(inr(j), z3.And(rm.dom[F.arr[tau[j]]], rm.val[F.arr[tau[j]]] == F.arr[j]))))   # surjective
+        else:
+            clauses.append(z3.BoolVal(False))
+        # numpy scalar types: np.float64 is a float, np.str_ is a str, np.int64 is NOT an int (ParameterValue accepts str|int|float|bool)
+        types.append(z3.Or(cfg[0].tag == 0, cfg[0].tag == 1))
+    all_names = z3.And(*[z3.Or(*[key == n for key, _ in rows]) for n in run.names]) if rows else z3.BoolVal(False)
+    tag_dom = z3.And(*[z3.And(c.tag >= 0, c.tag <= 2) for _, c in run.cfgs.values()])
+    out.append((R + 'bijection', z3.And(all_names, *clauses)))
+    out.append((R + 'permuted_values_usable_as_parameter_values', z3.Implies(tag_dom, z3.And(*types))))
+    return out
+
+
+def pb_int_class(p):
+    """witness class of the recorded finding: a permuted parameter whose feasible values are python ints (INTEGER parameter)"""
+    return z3.Or(*[c.tag == 2 for _, c in p.run.cfgs.values()]) if p.run.cfgs else z3.BoolVal(False)
+
+
+def units_permuting_bijection():
+    known = {}
+    n = 'C20.Permuting.__init__.permuted_values_usable_as_parameter_values'
+    f = CHK.finding_for(n) if CHK is not None else None
+    if f is not None:
+        known[n] = (f['what'], pb_int_class)
+    return [Unit('PermutingExperimenter.__init__(bijection)', 'Permuting', [(PE, 'PermutingExperimenter.__init__')], pb_entry, pb_post, known=known)]
+
+
+# =========================================================================================== loop contracts by shape (refactoring robustness)
+def loop_fallback(it, fr, node, iterable, key):
+    """a loop without a contract under its (function, ordinal) key (moved into a helper, reordered): try the contracts registered for
+    the same class and keep the one whose shape requirements are met by this loop (they raise Unsupported otherwise)."""
+    cls = key[1].split('.')[0]
+    cands = []
+    for (m, q, o), spec in sorted(E.LOOPS.items(), key=lambda kv: (kv[0][0], kv[0][1], kv[0][2])):
+        if m != key[0] or q.split('.')[0] != cls or spec in [c for c in cands]:
+            continue
+        ctx = E.LoopCtx()
+        ctx.iter, ctx.phase, ctx.i = iterable, 'init', z3.IntVal(0)
+        ctx.entry_env, ctx.entry_vals, ctx.entry_ghost = dict(fr.env), {}, dict(it.run.ghost)
+        try:
+            spec.invariant(it, fr, ctx)
+        except Unsupported:
+            continue
+        except Exception:
+            continue
+        cands.append(spec)
+    return cands[0] if len(cands) == 1 else None
+
+
+X.LOOP_FALLBACK[0] = loop_fallback
+
+
 # =========================================================================================== main
 def all_units():
-    return units_signflip() + units_transformers() + units_numpy() + units_infeasible_hypercube() + units_normalizing() + units_noisy() + units_problem_statement()
+    return units_signflip() + units_transformers() + units_numpy() + units_infeasible_hypercube() + units_normalizing() + units_noisy() + units_permuting_bijection() + units_problem_statement()
 
 
 def main(tier):
